@@ -331,9 +331,16 @@ class Wire(object):
                 if roundup(endpos, L.align) - endpos != left:
                     raise Reject("greedy tail does not end on a boundary")
             else:
+                # elements until no further complete element fits; what is left must be the end padding
+                # (trailing padding cannot be told from elements - the documented greedy ambiguity)
                 vals = []
                 while cur.pos < len(cur.data):
-                    vals.append(self._dec_type(m.type, cur))
+                    save = cur.pos
+                    try:
+                        vals.append(self._dec_type(m.type, cur))
+                    except Reject:
+                        cur.pos = save
+                        break
                 return vals
         if isb:
             cur.need(n)
